@@ -32,6 +32,13 @@ structure TD (c : Codec) where
 
 def TD.new (c : Codec) : TD c := ⟨none, 0⟩
 
+/-- the decoder `feed_text` continues with: the pending one, or a new one
+(`get_or_insert_with(|| encoding.new_decoder_without_bom_handling())`, text_decoder.rs:84-87) -/
+def TD.cur {c : Codec} (td : TD c) : c.σ :=
+  match td.pending with
+  | some s => s
+  | none => c.init
+
 /-- `Encoding::ascii_valid_up_to` -/
 def asciiValidUpTo : Bytes → Nat
   | [] => 0
@@ -84,58 +91,68 @@ def feedLoop (c : Codec) (pol : Policy c) (cap : Nat) (last : Bool) :
 
 def feedFuel (raw : Bytes) : Nat := 2 * raw.length + 3
 
-/-- `feed_text` (text_decoder.rs:53-129). -/
-def feedText (e : Encoding) (pol : Policy e.codec) (cap : Nat) (td : TD e.codec) (start : Nat)
-    (raw : Bytes) (last : Bool) : Option (TD e.codec × List Chunk) :=
-  let slow (pre : List Chunk) (pos : Nat) (rest : Bytes) : Option (TD e.codec × List Chunk) :=
-    -- :84-87 get_or_insert_with(new_decoder_without_bom_handling)
-    let s := match td.pending with
-      | some s => s
-      | none => e.codec.init
-    match feedLoop e.codec pol cap last (feedFuel rest) s rest pos with
-    | none => none
-    | some (s', stop, cs) =>
-      -- :116-120
-      some (if last then ⟨none, td.pendingStart⟩ else ⟨some s', stop⟩, pre ++ cs)
+/-- The slow path of `feed_text` (text_decoder.rs:80-128) on what the fast path left (`rest`, at source
+offset `pos`), `pre` = the fast-path chunk if any. -/
+def feedSlow (e : Encoding) (pol : Policy e.codec) (cap : Nat) (td : TD e.codec) (last : Bool)
+    (pre : List Chunk) (pos : Nat) (rest : Bytes) : Option (TD e.codec × List Chunk) :=
+  -- :84-87 get_or_insert_with(new_decoder_without_bom_handling) = `td.cur`
+  match feedLoop e.codec pol cap last (feedFuel rest) td.cur rest pos with
+  | none => none
+  | some (s', stop, cs) =>
+    -- :116-120
+    some (if last then ⟨none, td.pendingStart⟩ else ⟨some s', stop⟩, pre ++ cs)
+
+/-- `feed_text` (text_decoder.rs:53-129). `fast = false` is the same code with the fast path
+(`split_utf8_start`, :64-78) switched off, used only to state `C13_fastpath`. -/
+def feedTextWith (fast : Bool) (e : Encoding) (pol : Policy e.codec) (cap : Nat) (td : TD e.codec)
+    (start : Nat) (raw : Bytes) (last : Bool) : Option (TD e.codec × List Chunk) :=
   -- :64
-  match splitUtf8Start e.utf8 cap td.pending.isSome raw with
+  match (if fast then splitUtf8Start e.utf8 cap td.pending.isSome raw else none) with
   | some (text, n, rest) =>
     -- :66-72
     let reallyLast := last && rest.isEmpty
     let c0 : Chunk := ⟨text, reallyLast, start, start + n⟩
     -- :74-77
     if reallyLast then some (td, [c0])
-    else slow [c0] (start + n) rest
-  | none => slow [] start raw
+    else feedSlow e pol cap td last [c0] (start + n) rest
+  | none => feedSlow e pol cap td last [] start raw
+
+abbrev feedText := feedTextWith true
 
 /-- `flush_pending` (text_decoder.rs:38-50). -/
-def flushPending (e : Encoding) (pol : Policy e.codec) (cap : Nat) (td : TD e.codec) :
+def flushPendingWith (fast : Bool) (e : Encoding) (pol : Policy e.codec) (cap : Nat) (td : TD e.codec) :
     Option (TD e.codec × List Chunk) :=
-  if td.pending.isSome then feedText e pol cap td td.pendingStart [] true
+  if td.pending.isSome then feedTextWith fast e pol cap td td.pendingStart [] true
   else some (td, [])
+
+abbrev flushPending := flushPendingWith true
 
 /-- A sequence of non-final `feed_text` calls on consecutive pieces of one text node starting at source
 offset `start` (what `Dispatcher::try_produce_token_from_lexeme` does, dispatcher.rs:274-286). -/
-def feeds (e : Encoding) (pol : Policy e.codec) (cap : Nat) :
+def feedsWith (fast : Bool) (e : Encoding) (pol : Policy e.codec) (cap : Nat) :
     TD e.codec → Nat → List Bytes → Option (TD e.codec × List Chunk)
   | td, _, [] => some (td, [])
   | td, start, p :: ps =>
-    match feedText e pol cap td start p false with
+    match feedTextWith fast e pol cap td start p false with
     | none => none
     | some (td1, cs1) =>
-      match feeds e pol cap td1 (start + p.length) ps with
+      match feedsWith fast e pol cap td1 (start + p.length) ps with
       | none => none
       | some (td2, cs2) => some (td2, cs1 ++ cs2)
 
+abbrev feeds := feedsWith true
+
 /-- A whole text node: the pieces, then `flush_pending` (dispatcher.rs:367-378, called before the next
 tag / comment / end). -/
-def textNode (e : Encoding) (pol : Policy e.codec) (cap : Nat) (start : Nat) (parts : List Bytes) :
-    Option (List Chunk) :=
-  match feeds e pol cap (TD.new e.codec) start parts with
+def textNodeWith (fast : Bool) (e : Encoding) (pol : Policy e.codec) (cap : Nat) (start : Nat)
+    (parts : List Bytes) : Option (List Chunk) :=
+  match feedsWith fast e pol cap (TD.new e.codec) start parts with
   | none => none
   | some (td, cs) =>
-    match flushPending e pol cap td with
+    match flushPendingWith fast e pol cap td with
     | none => none
     | some (_, cs') => some (cs ++ cs')
+
+abbrev textNode := textNodeWith true
 
 end LolHtml.Enc
